@@ -405,10 +405,11 @@ pub fn small_case(rng: &mut Rng, variant: Variant, kind: MatchKind, miri: bool) 
     if !miri && variant == Variant::Bytewise && rng.below(150) == 0 {
         return hub_case(rng, kind);
     }
+    if !miri && variant == Variant::Bytewise && rng.below(120) == 0 {
+        return random_chain_case(rng, kind);
+    }
     if !miri && variant == Variant::Bytewise && rng.below(150) == 0 {
-        let (r, c, e) = (rng.range(248, 256), rng.range(248, 256), rng.range(0, 3));
-        let n = *rng.pick(&[None, Some(1u32), Some(2), Some(64)]);
-        return dense_case(rng, kind, r, c, e, n);
+        return dense_random(rng, kind);
     }
     if !miri && rng.below(300) == 0 {
         // random point of the chain-length sweep (C10 runs the sweep systematically)
@@ -548,6 +549,25 @@ pub fn many_patterns_case(rng: &mut Rng, variant: Variant, kind: MatchKind) -> C
     pats.retain(|p| s2.insert(p.clone()));
     rng.shuffle(&mut pats);
     let mut hays = Vec::new();
+    // output records are numbered in breadth-first order: the records beyond 65 536 belong to the
+    // longest patterns and to the lexicographically last of the 2-symbol ones — put those into a
+    // haystack explicitly
+    {
+        let mut late: Vec<&Vec<u8>> = pats.iter().filter(|p| p.len() > 2 * alpha[0].len().max(1) || p.as_slice() >= alpha[alpha.len() - 2].as_slice()).collect();
+        late.sort();
+        let mut h = Vec::new();
+        for p in late.iter().rev().take(40) {
+            h.extend_from_slice(p);
+        }
+        for _ in 0..40 {
+            if late.is_empty() {
+                break;
+            }
+            let p: &Vec<u8> = late[rng.usize_below(late.len())];
+            h.extend_from_slice(p);
+        }
+        hays.push(h);
+    }
     for _ in 0..2 {
         let mut h = Vec::new();
         for _ in 0..rng.range(10, 300) {
@@ -699,9 +719,17 @@ pub fn dense_case(rng: &mut Rng, kind: MatchKind, r: usize, c: usize, extras: us
     };
     let mut pats: Vec<Vec<u8>> = Vec::new();
     let mut seen: HashSet<Vec<u8>> = HashSet::new();
+    let comb = rng.chance(1, 2);
+    let tooth = *rng.pick(&[0x00u8, 0x00, 0x01, 0xFF]);
+    let skip_zero = comb && rng.chance(1, 2);
     for b in pick_set(rng, r) {
-        if seen.insert(vec![b]) {
-            pats.push(vec![b]);
+        if skip_zero && b == 0 {
+            continue; // the root's 0x00 edge (if any) then comes from one of the extras
+        }
+        // "comb": every first-level state has exactly one child, all on the same label
+        let p = if comb { vec![b, tooth] } else { vec![b] };
+        if seen.insert(p.clone()) {
+            pats.push(p);
         }
     }
     let a = *rng.pick(&[0u8, 2, 255, b'a']);
@@ -710,7 +738,7 @@ pub fn dense_case(rng: &mut Rng, kind: MatchKind, r: usize, c: usize, extras: us
             pats.push(vec![a, b]);
         }
     }
-    let pool: [[u8; 2]; 6] = [[2, 3], [0, 1], [1, 0], [3, 2], [2, 0], [254, 255]];
+    let pool: [&[u8]; 9] = [&[2, 3], &[0, 1], &[1, 0], &[3, 2], &[2, 0], &[254, 255], &[0, 3, 2], &[0], &[1, 0, 0]];
     for _ in 0..extras {
         let e = rng.pick(&pool).to_vec();
         if seen.insert(e.clone()) {
@@ -738,6 +766,56 @@ pub fn dense_case(rng: &mut Rng, kind: MatchKind, r: usize, c: usize, extras: us
         utf8: false,
         workload: "W12-dense-block-fill-sweep",
     }
+}
+
+/// W12d (byte-wise): a few long patterns of uniformly random bytes (every BASE = slot ^ label is
+/// "random", blocks are filled by single-child states up to their last few slots) next to the
+/// one-byte patterns 0x00 / 0x01, so that a stale CHECK in any leftover slot changes behaviour.
+pub fn random_chain_case(rng: &mut Rng, kind: MatchKind) -> Case {
+    let mut pats: Vec<Vec<u8>> = Vec::new();
+    for _ in 0..rng.range(1, 3) {
+        let len = rng.range(300, 3000);
+        pats.push((0..len).map(|_| rng.below(256) as u8).collect());
+    }
+    pats.push(vec![0x00]);
+    if rng.chance(1, 2) {
+        pats.push(vec![0x01]);
+    }
+    if rng.chance(1, 2) {
+        let k = rng.range(1, pats[0].len() - 1);
+        let mut q = pats[0][..k].to_vec();
+        q.push(pats[0][k].wrapping_add(1));
+        pats.push(q);
+    }
+    let mut seen = HashSet::new();
+    pats.retain(|p| seen.insert(p.clone()));
+    rng.shuffle(&mut pats);
+    let long = pats.iter().max_by_key(|p| p.len()).unwrap().clone();
+    let mut h = Vec::new();
+    for _ in 0..rng.range(4, 30) {
+        let k = rng.range(1, long.len());
+        h.extend_from_slice(&long[k.saturating_sub(rng.range(1, 12))..k]);
+        h.push(*rng.pick(&[0x00u8, 0x00, 0x01, 0xFF]));
+    }
+    let n = pats.len();
+    let entry = if rng.chance(1, 2) { Entry::New } else { Entry::WithValues };
+    Case {
+        spec: Spec { variant: Variant::Bytewise, kind, nfb: Some(*rng.pick(&[1u32, 1, 2, 2, 3, 5, 16])), entry },
+        values: if entry == Entry::New { (0..n as u32).collect() } else { values(rng, n) },
+        patterns: pats,
+        haystacks: vec![h, long],
+        utf8: false,
+        workload: "W12-random-byte-chains",
+    }
+}
+
+/// Random point of the W12c dense-layout family (wider ranges than the deterministic sweep).
+pub fn dense_random(rng: &mut Rng, kind: MatchKind) -> Case {
+    let r = rng.range(236, 256);
+    let c = if rng.chance(1, 3) { 0 } else { rng.range(236, 256) };
+    let e = rng.range(0, 4);
+    let n = *rng.pick(&[None, None, Some(1u32), Some(2), Some(3), Some(64)]);
+    dense_case(rng, kind, r, c, e, n)
 }
 
 /// W9: adversarial inputs for step counts (a^k b, a^k, Fibonacci words; haystacks (a^k c)*, runs).
